@@ -527,7 +527,9 @@ def cluster_random(rng, count, sort=True):
             stop = x
             start = stop - rng.randrange(0, 40000)
             ln = rng.choice([2500, -2500, 7000, rng.randrange(-90000, 90000)])
-            calls.append((ins, chrom, start, stop, 100 + i, rng.randrange(0, 9999), rng.randrange(0, 9999), ln))
+            # a molecule chained from three or more segments has two breakage places: two calls with one query id
+            qid = calls[-1][4] if (calls and rng.random() < 0.25) else 100 + i
+            calls.append((ins, chrom, start, stop, qid, rng.randrange(0, 9999), rng.randrange(0, 9999), ln))
         if sort:
             calls.sort(key=lambda c: (c[1], c[3]))
         yield f"CLUSTER blur={blur} CALLS=" + ";".join(":".join(str(v) for v in c) for c in calls)
@@ -543,7 +545,8 @@ def indelfile_random(rng, count):
                 chrom = rng.choice([1, 1, 2, 3])
                 x = rng.choice([x + rng.randrange(0, 30001), x + rng.randrange(30000, 90010), rng.randrange(0, 200000)])
                 ln = rng.choice([2500, 7000, rng.randrange(101, 90000)]) * (-1 if ins else 1)
-                out.append((ins, chrom, x - rng.randrange(0, 40000), x, base + i, rng.randrange(0, 9999), rng.randrange(0, 9999), ln))
+                qid = out[-1][4] if (out and rng.random() < 0.25) else base + i
+                out.append((ins, chrom, x - rng.randrange(0, 40000), x, qid, rng.randrange(0, 9999), rng.randrange(0, 9999), ln))
             rng.shuffle(out)
             return out
         shape = rng.choice(["both", "both", "ins-only", "del-only", "none"])
